@@ -6,6 +6,7 @@ independently written specification in SkVerif/Spec/C14*.lean, for ALL panels / 
 parameters.  Only theorems and non-vacuity examples live here; lemmas are in SkVerif/Lemmas/C14*.lean.
 -/
 import SkVerif.Lemmas.C14Panel
+import SkVerif.Lemmas.C14Labels
 import SkVerif.Lemmas.C14PAAPanel
 import SkVerif.Lemmas.C14Seg
 import SkVerif.Lemmas.C14Slide
@@ -156,6 +157,27 @@ theorem columnConcat_eq_spec (X : Panel) (nc : Nat) (hX : WellShaped X) (hc : Co
     (heq : ColumnsEqualLength X nc) : columnConcat X = .ok (Spec.columnConcat X) := by
   simp only [columnConcat, Lem.tabularize_eq_spec X nc hX hc heq, bind, Except.bind, pure, Except.pure]
   simp [nestRows, Spec.tabularize, Spec.columnConcat]
+
+/-- Columns are taken BY POSITION, whatever their labels: for a nested data frame with any column labels (of any
+type, in any order, sorted or not) and any time index, the table is the table of the unlabelled panel, hence
+(`tabularize_eq_spec`, `tabularize_column_then_time`) the frame's columns one after the other in frame order; two
+frames that differ only in their labels give the same table, and the same concatenated series. -/
+theorem tabularize_values_ignore_labels {ι κ : Type} (labels : List ι) (labels' : List κ) (t0 t0' : Nat) (X : Panel) :
+    (tabularizeL labels t0 X).map Prod.snd = tabularize X ∧
+    (tabularizeL labels t0 X).map Prod.snd = (tabularizeL labels' t0' X).map Prod.snd ∧
+    columnConcatL labels X = columnConcat X ∧ columnConcatL labels X = columnConcatL labels' X := by
+  refine ⟨?_, ?_, rfl, rfl⟩ <;>
+    (simp only [tabularizeL, bind, Except.bind, pure, Except.pure]; cases tabularize X <;> rfl)
+
+/-- The names of the tabular columns follow the same column-then-time order: with all series of length `T`,
+tabular column `j*T + t` is named after (label of frame column `j`, time index `t0 + t`). -/
+theorem tabularize_names_column_then_time {ι : Type} (labels : List ι) (t0 : Nat) (inst0 : Inst) (rest : Panel)
+    (T j t : Nat) (hT : ∀ c ∈ inst0, c.length = T) (hl : labels.length = inst0.length) (ht : t < T) :
+    (tabularNames labels t0 (inst0 :: rest))[j * T + t]? = (labels[j]?).map (fun l => (l, t0 + t)) :=
+  Lem.tabularNames_getElem? labels t0 inst0 rest T j t hT hl ht
+
+example : tabularizeL ["temp", "hum"] 2 [[[1, 2], [4, 5]], [[6, 0], [7, 8]]] =
+    .ok ([("temp", 2), ("temp", 3), ("hum", 2), ("hum", 3)], [[1, 2, 4, 5], [6, 0, 7, 8]]) := by decide
 
 theorem tabularize_rows_preserved_in_order (X : Panel) (i : Nat) :
     (Spec.tabularize X).length = X.length ∧ (Spec.columnConcat X).length = X.length ∧
